@@ -5,7 +5,7 @@ from ..scen_limiter import limiter
 
 def run(ctx):
     collectors(ctx)
-    limiter(ctx, {'lifecycle'})
+    limiter(ctx, {'lifecycle', 'step'})
     from ..scen_go import go_chain
     go_chain(ctx, want=('go.complete',))      # end of input reaches the collector whatever was read (empty input, --take 0, scalars only)
     from ..scen_sorter import sorter
